@@ -175,13 +175,8 @@ class Scene:
         # 15% of the scenes live at the floor of the size domain (every feature 0.2 .. 0.5): absolute thresholds
         # and iteration tolerances of the functions are weakest there
         s.small = bool(rng.random() < 0.15)
-        s.tiny = False
         if s.small:
             s.h = float(rng.uniform(0.1, 0.2))
-            # a third of them at the very floor (features 0.02 .. 0.1, the domain starts at 1e-2)
-            if rng.random() < 0.35:
-                s.tiny = True
-                s.h = float(rng.uniform(0.01, 0.05))
 
     def direction(s):
         rng = s.rng
@@ -220,8 +215,6 @@ class Scene:
 
     def length(s):
         rng = s.rng
-        if s.tiny:
-            return float(rng.choice([2 * s.h, rng.uniform(0.02, 0.1)])) if s.structured else float(rng.uniform(0.02, 0.1))
         if s.small:
             return float(rng.choice([2 * s.h, rng.uniform(0.2, 0.5)])) if s.structured else float(rng.uniform(0.2, 0.5))
         if s.structured and rng.random() < 0.8:
@@ -288,9 +281,7 @@ def make(kind, sc):
         return Prim(kind, (f(T), f(size)), O.OBox(T, size), [R[:, i] for i in range(3)])
     if kind in ("ellipsoid", "ellipsoid_surface"):
         R = sc.frame(); c = sc.point(); radii = np.array([sc.length(), sc.length(), sc.length()]) * 0.5
-        if sc.tiny:
-            radii = rng.uniform(0.01, 0.1, size=3)
-        elif sc.small:
+        if sc.small:
             radii = rng.uniform(0.2, 0.45, size=3)
         radii = np.maximum(radii, SMIN)
         T = O.pose(R, c)
@@ -587,3 +578,25 @@ def transformed(p, G=None, s=1.0):
     if k == "cylinder":
         return rebuild(k, (T, float(a[1]) * s, float(a[2]) * s))
     raise ValueError(k)
+
+
+def feature_sizes(p):
+    """the feature sizes of a primitive that the domain P bounds to [0.2, 1e2] (radii, edge lengths, side lengths);
+    empty for points, lines and planes"""
+    k = p.kind; a = p.args
+    if k == "segment":
+        return [float(np.linalg.norm(np.asarray(a[1]) - np.asarray(a[0])))]
+    if k == "triangle":
+        V = np.asarray(a[0], float)
+        return [float(np.linalg.norm(V[i] - V[(i + 1) % 3])) for i in range(3)]
+    if k == "rectangle":
+        return [float(x) for x in a[2]]
+    if k in ("circle", "disk"):
+        return [float(a[1])]
+    if k == "box":
+        return [float(x) for x in a[1]]
+    if k in ("ellipsoid", "ellipsoid_surface"):
+        return [float(x) for x in a[1]]
+    if k == "cylinder":
+        return [float(a[1]), float(a[2])]
+    return []
